@@ -1177,6 +1177,21 @@ def mon_connection_loss(tr, pid='C11', affected=('c', 's'), settled_mark='settle
             kind = (scn.st[e['uid']]['spec'].get('src' if e.get('dir') == 'resp' else 'rsrc') or {}).get('kind')
             out.append(viol('producer_pulled_after_close', '%s:produced_after_close:%s' % (pid, kind), side=side,
                             uid=e['uid'], dir=e.get('dir'), n=len(late), fault=fkind))
+    # a request the application issues from its close notification (on_close runs while close() is still in progress, before
+    # its last sweep) is registered by an endpoint that accepted it: close() must not return and leave it without an outcome
+    for e0 in log:
+        if e0['ev'] != 'issued_from_on_close':
+            continue
+        uid = e0['uid']
+        st = scn.st.get(uid)
+        if st is None or st.get('issue_raised') or not any(x['ev'] == 'close_returned' and x['side'] == e0['side'] for x in log):
+            continue
+        if not any(x['ev'] == 'close_call' and x['side'] == e0['side'] and x['seq'] < e0['seq'] for x in log):
+            continue  # (the notification was caused by a loss, not by this endpoint's own close())
+        evs = [x for x in log if x.get('uid') == uid]
+        if st['spec']['k'] == 'rr' and not any(x['ev'] in ('rr_result', 'rr_error', 'rr_cancelled') for x in evs):
+            out.append(viol('request_left_hanging', '%s:hanging_issued_during_close:rr' % pid, uid=uid, k='rr', fault=fkind,
+                            issued='from on_close, while close() was in progress'))
     # requests issued after the loss (for example a retry from inside on_error) and before a later explicit close() of
     # that endpoint are pending at that close: it must fail them too
     for uid in scn.started:
